@@ -15,10 +15,14 @@ sub-pool that shares a dedicated meter with devices outside the pool use the sha
 `C12_battery_pool_refuted` / `C12_pv_pool_refuted`, `…_partial` (regime `SubPoolSharedMeter`).
 -/
 import Frequenz.Lemmas.GraphFormulas
+import Frequenz.Lemmas.GraphVisited
 
 open Graph Extracted.Graph
 
 /-! ## The tables the model relies on -/
+
+/-- `grid 1 → {pvInv 2, meter 3 → {batInv 4 → bat 5, ev 6}}` (also the consumer witness below). -/
+def C12_ex0 : Grid := ⟨1, [.pvInv 2, .meter 3 [.batInv 4 [5], .ev 6]]⟩
 
 /-- `dfs` starts at the grid and walks into batteries; the model skips both.  Justification: no
 classification predicate and no category set used by the generators accepts GRID, BATTERY or NONE. -/
@@ -39,6 +43,23 @@ theorem C12_non_existing_counts_as_zero :
 
 /-- Every generated power formula (and the fallback formulas) reads the active-power metric. -/
 theorem C12_metric_ids : metricIds.all (fun p => p.2 == "ACTIVE_POWER") = true := by decide
+
+/-- `dfs` with its `visited` set (`dfsVL`, started with the grid already visited) returns exactly the
+components of the plain recursive descent used by the model's generators, on every tree whose
+component ids (grid, meters, devices, batteries) are pairwise distinct — as they are in any
+`_MicrogridComponentGraph`, whose nodes are keyed by id. -/
+theorem C12_visited_set_is_dead_code : ∀ (g : Grid) (cond : Pos → Node → Bool),
+    (g.id :: allIdsL g.succ).Nodup →
+    (dfsVL cond (topPos g) none [g.id] g.succ).2 = dfsFromGrid cond g := by
+  intro g cond hn
+  rw [List.nodup_cons] at hn
+  refine (dfsVL_eq cond g.succ (topPos g) none [g.id] ?_ hn.2).1
+  intro i hi hmem
+  rw [List.mem_singleton] at hmem
+  subst hmem
+  exact hn.1 hi
+
+example : (C12_ex0.id :: allIdsL C12_ex0.succ).Nodup := by decide
 
 /-! ## Witnesses -/
 
@@ -236,20 +257,27 @@ def C12_battery_pool_statement : Prop := ∀ (g : Grid) (S : List Nat) (env load
 
 /-- Violated: pool {battery 5} behind the battery meter 3 shared with inverter 6: the formula is `#3`
 (3 W + 4 W), the pool's inverter delivers 3 W; the fallback `#4` disagrees with its primary. -/
-theorem C12_battery_pool_refuted : ¬ C12_battery_pool_statement := by
-  intro h
+theorem C12_battery_pool_refuted : pairRequiresAllRequested = false → ¬ C12_battery_pool_statement := by
+  intro hp h
   have := (h C12_w2 [5] C12_w2Env C12_w2Load (by decide +kernel) (by decide +kernel) (by decide) (by decide +kernel)).1
+  simp only [batteryFormula, hp] at this
   revert this
   decide +kernel
 
+/-- Holds for pools that share no dedicated meter with outside devices — and for every pool once
+`_get_metric_fallback_components` pairs only when all successors of the meter are requested
+(`fixes/C12-subpool-shared-meter.patch`; the flag is extracted from the source). -/
 theorem C12_battery_pool_partial : ∀ (g : Grid) (S : List Nat) (env load : Nat → Rat),
     g.admissible = true → g.reading env load = true → S.isEmpty = false → batErrL S g.succ = false →
-    subPoolSharedMeter (batSel S) g = false →
+    (pairRequiresAllRequested = true ∨ subPoolSharedMeter (batSel S) g = false) →
     evalF env (batteryFormula g S) = some (devSumL (batSel S) env g.succ)
       ∧ (batteryFormula g S).fallbacksOk env = true := by
   intro g S env load ha hr hne herr hreg
-  have hc : poolClosedL (batSel S) (topPos g) g.succ = true := by simpa [subPoolSharedMeter] using hreg
-  have := battery_pool_good g env load (hyp_of g env load ha hr) S hne herr hc
+  have hc : pairRequiresAllRequested = true ∨ poolClosedL (batSel S) (topPos g) g.succ = true := by
+    rcases hreg with h | h
+    · exact Or.inl h
+    · right; simpa [subPoolSharedMeter] using h
+  have := battery_pool_good pairRequiresAllRequested g env load (hyp_of g env load ha hr) S hne herr hc
   exact ⟨this.eval, this.fb⟩
 
 /-- A PV pool (ids of some PV inverters) reports the power of its inverters. -/
@@ -259,20 +287,28 @@ def C12_pv_pool_statement : Prop := ∀ (g : Grid) (i : Nat) (is : List Nat) (en
       ∧ (pvFormula g (some (i :: is))).fallbacksOk env = true
 
 /-- Violated: pool {inverter 9} behind the PV meter 8 shared with inverter 10: the formula is `#8`. -/
-theorem C12_pv_pool_refuted : ¬ C12_pv_pool_statement := by
-  intro h
+theorem C12_pv_pool_refuted : pairRequiresAllRequested = false → ¬ C12_pv_pool_statement := by
+  intro hp h
   have := (h C12_w2 9 [] C12_w2Env C12_w2Load (by decide +kernel) (by decide +kernel)).1
+  simp only [pvFormula, hp] at this
   revert this
   decide +kernel
 
 theorem C12_pv_pool_partial : ∀ (g : Grid) (i : Nat) (is : List Nat) (env load : Nat → Rat),
-    g.admissible = true → g.reading env load = true → subPoolSharedMeter (pvSel (i :: is)) g = false →
+    g.admissible = true → g.reading env load = true →
+    (pairRequiresAllRequested = true ∨ subPoolSharedMeter (pvSel (i :: is)) g = false) →
     evalF env (pvFormula g (some (i :: is))) = some (devSumL (pvSel (i :: is)) env g.succ)
       ∧ (pvFormula g (some (i :: is))).fallbacksOk env = true := by
   intro g i is env load ha hr hreg
-  have hc : poolClosedL (pvSel (i :: is)) (topPos g) g.succ = true := by simpa [subPoolSharedMeter] using hreg
-  have := pv_pool_good g env load (hyp_of g env load ha hr) i is hc
+  have hc : pairRequiresAllRequested = true ∨ poolClosedL (pvSel (i :: is)) (topPos g) g.succ = true := by
+    rcases hreg with h | h
+    · exact Or.inl h
+    · right; simpa [subPoolSharedMeter] using h
+  have := pv_pool_good pairRequiresAllRequested g env load (hyp_of g env load ha hr) i is hc
   exact ⟨this.eval, this.fb⟩
+
+/-- The refutations above are about the tree as extracted: one of the two cases applies. -/
+example : pairRequiresAllRequested = false ∨ pairRequiresAllRequested = true := by decide
 
 /-! ## Non-vacuity: concrete graphs and readings satisfying the hypotheses -/
 
